@@ -3,6 +3,7 @@ import MysticVerif.Basic.Proto
 import MysticVerif.Model.Dsl
 import MysticVerif.Model.Combinators
 import MysticVerif.Model.CombinatorsX
+import MysticVerif.Model.CombinatorsSeq
 import MysticVerif.Model.PenaltyTree
 import MysticVerif.Model.Couplers
 
@@ -101,6 +102,55 @@ def oracle (recs : Array (List Float × Out (List Float))) (j : Nat) (x : List F
   match recs[j]? with
   | some (inp, o) => if sameBits inp x then o else .raise
   | none => .raise
+
+
+/-! ### one combinator OBJECT called several times (Model/CombinatorsSeq) -/
+
+/-- recorded member call number `g` (global, over all calls of the object): the member index it was made to, the
+vector it received, what it did -/
+def parseRecI : Val → Option (Nat × List Float × Out (List Float))
+  | .list [.int i, inp, o] => do pure (i.toNat, ← inp.asFloats?, ← parseOut o)
+  | _ => none
+
+/-- the oracle of a call sequence: global call `g` behaves as recorded PROVIDED the model makes it to the member
+the real call went to AND hands it the vector the real member received -/
+def oracleI (recs : Array (Nat × List Float × Out (List Float))) (g i : Nat) (x : List Float) : Out (List Float) :=
+  match recs[g]? with
+  | some (idx, inp, o) => if idx == i && sameBits inp x then o else .raise
+  | none => .raise
+
+/-- pure (guarded DSL) members: the behaviour does not depend on the global call number -/
+def pureI (ms : Array GCon) (_g i : Nat) (x : List Float) : Out (List Float) :=
+  match ms[i]? with
+  | some g => g.run x
+  | none => .ret x
+
+def showResS (r : ResX (List Float) × Stats) : String :=
+  match r with
+  | (.success y t links, st) => s!"(success {pFs y} {t} {links} {st.calls} {st.draws})"
+  | (.fail y, st) => s!"(fail {pFs y} {st.calls} {st.draws})"
+  | (.raised, st) => s!"(raised {st.calls} {st.draws})"
+  | (.stuck, st) => s!"(stuck {st.calls} {st.draws})"
+
+/-- `(members (..))` (pure guarded DSL members) or `(recs (..))` (recorded oracle with member indices) -/
+def parseBehaviour (args : List Val) : Option (Nat → Nat → List Float → Out (List Float)) :=
+  match (kw? args "members").bind Val.asList? |>.bind (·.mapM parseGCon) with
+  | some ms => some (pureI ms.toArray)
+  | none =>
+    match (kw? args "recs").bind Val.asList? |>.bind (·.mapM parseRecI) with
+    | some recs => some (oracleI recs.toArray)
+    | none => none
+
+def parseCallV : Val → Option (List Float × List (List (Int × Float)))
+  | .list [x, ds] => do pure (← x.asFloats?, ← ds.asList? |>.bind (·.mapM parseDrawVec))
+  | _ => none
+
+def parseCallN : Val → Option (List Float × List Nat)
+  | .list [x, ds] => do pure (← x.asFloats?, ← ds.asNats?)
+  | _ => none
+
+def showSeq (rs : List (ResX (List Float) × Stats)) : String :=
+  "ok r=(" ++ " ".intercalate (rs.map showResS) ++ ")"
 
 /-! ### penalty trees (Model/PenaltyTree, built by C15): C17's own stream -/
 
@@ -230,6 +280,23 @@ def handle : Handler
     let some recs := (kw? args "recs").bind Val.asList? |>.bind (·.mapM parseRec) | return "bad-op"
     let some draws := (kw? args "draws").bind Val.asList? |>.bind (·.mapM parseDrawVec) | return "bad-op"
     return showResX (CombX.not_ (oracle recs.toArray) randVec cap x draws)
+  | .sym "sand" :: args => Id.run do   -- ONE and_ object called on every entry of `calls` in turn
+    let some n := (kw? args "n").bind Val.asNat? | return "bad-op"
+    let some cap := (kw? args "cap").bind Val.asNat? | return "bad-op"
+    let some c := parseBehaviour args | return "bad-op"
+    let some calls := (kw? args "calls").bind Val.asList? |>.bind (·.mapM parseCallV) | return "bad-op"
+    return showSeq (CombSeq.andSeq c randVec n cap 0 calls)
+  | .sym "sor" :: args => Id.run do
+    let some n := (kw? args "n").bind Val.asNat? | return "bad-op"
+    let some cap := (kw? args "cap").bind Val.asNat? | return "bad-op"
+    let some c := parseBehaviour args | return "bad-op"
+    let some calls := (kw? args "calls").bind Val.asList? |>.bind (·.mapM parseCallN) | return "bad-op"
+    return showSeq (CombSeq.orSeq c id n cap 0 calls)
+  | .sym "snot" :: args => Id.run do
+    let some cap := (kw? args "cap").bind Val.asNat? | return "bad-op"
+    let some c := parseBehaviour args | return "bad-op"
+    let some calls := (kw? args "calls").bind Val.asList? |>.bind (·.mapM parseCallV) | return "bad-op"
+    return showSeq (CombSeq.notSeq c randVec cap 0 calls)
   | .sym "pen" :: args => Id.run do   -- values of a penalty tree (and of sub-objects) at points
     let some leaves := (kw? args "leaves").bind Val.asList? |>.bind (·.mapM parseLeaf) | return "bad-op"
     let some t := (kw? args "t").bind parsePT | return "bad-op"
